@@ -288,20 +288,22 @@ func TestC16(t *testing.T) {
 	upper := strings.ToUpper
 	moduleNames := []string{"erc20", "eth", "bsc", "tron", "distribution", "evm", "bonded_tokens_pool", "mint", "fee_collector", "crosschain", "gov", "polygon", "avalanche", "arbitrum", "optimism", "layer2", "migrate", "transfer", "feemarket"}
 	govBz := authtypes.NewModuleAddress(govtypes.ModuleName)
-	modCursor := 0
+	modCursor := map[string]int{}
 	candidates := func(rng *rand.Rand, m sdk.Msg) []cand {
-		// module accounts are cycled through (not drawn), so that every message type meets every module account
+		// module accounts are cycled through PER MESSAGE TYPE (not drawn), two per call, so that every message type
+		// meets every module account within ten calls
 		nextModule := func() string {
-			modCursor++
-			if moduleNames[modCursor%len(moduleNames)] == "gov" {
-				modCursor++
+			k := msgKey(m)
+			modCursor[k]++
+			if moduleNames[modCursor[k]%len(moduleNames)] == "gov" {
+				modCursor[k]++
 			}
-			return authtypes.NewModuleAddress(moduleNames[modCursor%len(moduleNames)]).String()
+			return authtypes.NewModuleAddress(moduleNames[modCursor[k]%len(moduleNames)]).String()
 		}
 		other, other2 := nextModule(), nextModule()
 		acc := helpers.GenAccAddress().String()
 		cs := []cand{
-			{"gov", gov}, {"GOV-upper", upper(gov)}, {"module", other}, {"module-upper", upper(other2)},
+			{"gov", gov}, {"GOV-upper", upper(gov)}, {"module", other}, {"module", other2}, {"module-upper", upper(other2)},
 			{"account", acc}, {"account-upper", upper(acc)},
 		}
 		// every name and every address in the payload: the module account of that name / that address itself
